@@ -17,8 +17,8 @@ from vlib.core import Stage, fail
 ID = "C05"
 MANIFEST = {
     "category": "exploration",
-    "text": "Generated-input search with metamorphic oracles: for a generated valid expression, a drawn site and a drawn transformation (and-ing a hint onto the root or onto any operand of U/O/X, attaching a format constraint on either side of any rc-carrying sub-expression, re-rendering with redundant brackets/other spelling, permuting the operands of any U/O/X) the transformed expression must still evaluate (no InvalidExpressionError, no other exception) and yield the identical (fulfilled, is_conditional) under 1-8 assignments. The refine stage blanks 1-3 keys of a total assignment to UNKNOWN and, when the outcome stays definite, checks every FULFILLED/UNFULFILLED refinement.",
-    "note": "Trusted: AST transformations and renderer in this module / vlib/gen.py. Only the requirement outcome is compared (hints and the collected format-constraint expression legitimately change). Bounded by 12/30 atoms.",
+    "text": "Generated-input search with metamorphic oracles: for a generated valid expression, a drawn site and a drawn transformation (and-ing a hint onto the root or onto any operand of U/O/X, attaching a format constraint on either side of any rc-carrying sub-expression, re-rendering with redundant brackets/other spelling, permuting the operands of any U/O/X) the transformed expression must still evaluate (no InvalidExpressionError, no other exception) and yield the identical (fulfilled, is_conditional) under 1-8 assignments. The refine stage blanks 1-3 keys of a total assignment to UNKNOWN and, when the outcome stays definite, checks every FULFILLED/UNFULFILLED refinement. The evaluator style (dict based / shipped ContentEvaluationResult based / the latter with mixed-case states) and the hint texts (incl. the empty text, '%', braces, quotes) are part of the generated case.",
+    "note": "Trusted: AST transformations and renderer in this module / vlib/gen.py. Only the requirement outcome is compared (hints and the collected format-constraint expression legitimately change). Bounded by 12/30 atoms. Process configuration by shard (vlib/sut.py; recorded in replay files): plain / parse caches preheated beyond their size / warnings attributed to ahbicht raised as errors / logging fully enabled with every record rendered.",
     "technique": "property-based testing with metamorphic relations (transformed expression vs original; partial vs refined assignment)",
 }
 LEVEL = "exploration"
